@@ -7,6 +7,7 @@ import (
 	"flag"
 	"fmt"
 	"os"
+	"runtime/debug"
 	"strconv"
 
 	"verif/cli"
@@ -25,6 +26,7 @@ func main() {
 		replay  = flag.String("replay", "", "replay file")
 	)
 	flag.Parse()
+	debug.SetGCPercent(800)
 	p := props.Get(*prop)
 	if p == nil {
 		fmt.Fprintf(os.Stderr, "unknown property %q; have %v\n", *prop, props.IDs())
